@@ -7,6 +7,9 @@
 // storage method x fault kind ("fail every call of M"). Prerequisite requests (authorize/login/callback before a code
 // exchange, minting the tokens that userinfo / introspection / revocation use ...) always run un-faulted: the plan is
 // armed for the request under test only. A case counts only if the fault fired during that request.
+//
+// Readiness (GET /ready, Storage.Health) is part of the catalogue: behind the plain provider and behind an
+// application-defined provider whose Probes() returns several probes in gated completion orders (ready.go).
 package main
 
 import (
@@ -223,6 +226,14 @@ func (h *harness) baseline(c *combo) {
 		}
 		return
 	}
+	if ps := x.e.probes; ps != nil {
+		if exp := ps.Expired(); len(exp) > 0 {
+			h.baseBad.Add(1)
+			run.Count("baseline", "probe-gate-watchdog")
+			run.Inconclusive(fmt.Sprintf("fault-free run of %s: a probe gate hit its watchdog (%s); probe events: %s", name, strings.Join(exp, "; "), ps.Trace()))
+			return
+		}
+	}
 	expectOK := f.capsOK(v.Caps) && !f.ErrBase
 	if v.NoPost && expectOK && !f.OK(x.e, x.resp) && isErrorAnswer(f, x.e, x.resp) {
 		// a flow of a client_secret_post client: refused by configuration; the refusal itself is enumerated
@@ -339,8 +350,34 @@ func (h *harness) runCase(c *combo, cd caseDef, caseIdx int) {
 		run.Count("grey", "superfluous-WriteHeader")
 	}
 	mk := func() witness {
-		return witness{Router: rn, Flow: f.Name, FlowKey: fname, Variant: v.String(), VI: c.vi, Plan: plan, Kind: kindNames[plan.Kind], Failed: failed, User: x.e.user,
+		w := witness{Router: rn, Flow: f.Name, FlowKey: fname, Variant: v.String(), VI: c.vi, Plan: plan, Kind: kindNames[plan.Kind], Failed: failed, User: x.e.user,
 			Prereq: x.e.steps, Request: x.e.lit, Response: respDoc(x.resp), Journal: journalLines(x.journal), Baseline: c.journal}
+		if ps := x.e.probes; ps != nil {
+			w.Extra = map[string]string{"probes": ps.describe(), "probe_events_in_order": ps.Trace()}
+		}
+		return w
+	}
+	if ps := x.e.probes; ps != nil {
+		// readiness behind an application-defined provider with several probes: what the gates saw (never part of the verdict)
+		if exp := ps.Expired(); len(exp) > 0 {
+			run.Count("ready_gate", "watchdog-expired")
+			run.Inconclusive(fmt.Sprintf("%s:%s: a probe gate hit its watchdog (%s); probe events: %s", rn, fname, strings.Join(exp, "; "), ps.Trace()))
+			return
+		}
+		run.Count("ready_gate", "passed")
+		run.Count("ready_probe_events:"+rn, f.Probes.Name+": "+ps.Trace())
+		switch ps.overlap.Load() {
+		case 1:
+			run.Count("ready_overlap:"+rn, "extra probe in flight while Health failed")
+		case 2:
+			run.Count("ready_overlap:"+rn, "not offered (the probes are not run concurrently)")
+		}
+		if ps.lateDone.Load() > 0 {
+			run.Count("ready_extra_probe:"+rn, "returned nil after Health had failed")
+		} else {
+			run.Count("ready_extra_probe:"+rn, "none returned after Health had failed")
+		}
+		run.Observed("ready-layout:" + rn + ":" + f.Probes.Name)
 	}
 	if vd.Class != "" {
 		class := vd.Class
@@ -349,7 +386,9 @@ func (h *harness) runCase(c *combo, cd caseDef, caseIdx int) {
 		}
 		key := fmt.Sprintf("C10:%s:%s:%s:%s", rn, fname, failed, class)
 		w := mk()
-		w.Extra = map[string]string{}
+		if w.Extra == nil {
+			w.Extra = map[string]string{}
+		}
 		if x.resp.Panic != nil {
 			w.Extra["stack"] = clip(x.resp.Panic.Stack, 3000)
 		}
@@ -398,10 +437,11 @@ func main() {
 	run := ev.Start("C10", "fault_enumeration")
 	thorough := run.Tier == ev.Thorough
 	h := &harness{run: run, flows: catalogue(), variants: variantsFor(thorough), quickVar: 3}
-	run.SetRule("complete enumeration: for every flow of the catalogue x {provider, legacy} router x every variant (access-token type, signing algorithm, storage capabilities) the request under test is run fault-free in a fresh world to learn its storage journal (N calls), then re-run in a fresh world for every k in 1..N x 3 fault kinds and for every distinct storage method (fail every call) x 3 fault kinds; prerequisites run un-faulted; a case is non-trivial iff the fault fired during the request under test; distinct = distinct (router, flow, variant, plan, fault kind) vectors that fired")
+	run.SetRule("complete enumeration: for every flow of the catalogue x {provider, legacy} router x every variant (access-token type, signing algorithm, storage capabilities) (readiness: x 8 probe layouts) the request under test is run fault-free in a fresh world to learn its storage journal (N calls), then re-run in a fresh world for every k in 1..N x 3 fault kinds and for every distinct storage method (fail every call) x 3 fault kinds; prerequisites run un-faulted; a case is non-trivial iff the fault fired during the request under test; distinct = distinct (router, flow, variant, plan, fault kind) vectors that fired")
 	run.Assume("vstore consults the fault plan before the real operation, so a failed call has no effect on storage state",
 		"fault kinds: plain error, wrapped context.DeadlineExceeded, *oidc.Error{server_error}; op.ErrInvalidRefreshToken from GetRefreshTokenInfo is normal control flow and never injected",
-		"introspection: 200 {\"active\":false} is accepted as the fail-closed answer (DESIGN.md 6a); discovery and /ready are not flows of the statement and are excluded",
+		"introspection: 200 {\"active\":false} is accepted as the fail-closed answer (DESIGN.md 6a); discovery is not a flow of the statement and is excluded",
+		"readiness: Storage.Health is a storage call of GET /ready; besides the plain provider (one probe) the request runs behind an application-defined OpenIDProvider whose Probes() returns the storage probe plus always-succeeding application probes, in several list orders and - forced by gates inside the application probes - finishing before / after / while the storage probe fails; the gates select histories only, the verdict is the general one (a failed Health => error answer)",
 		"an error redirect is accepted only to the redirect URI of the authorization request, and at the authorization endpoint only if the client had been loaded before the fault",
 		"single faults per request (one position, or one method failing on every call); handlers are called in-process")
 	run.Extra("flows", len(h.flows))
@@ -452,11 +492,14 @@ func main() {
 			}
 		}
 	}
-	for _, cl := range []string{"authorize", "callback", "token", "device_authorization", "device_poll", "userinfo", "introspection", "revocation", "end_session", "keys"} {
+	for _, cl := range []string{"authorize", "callback", "token", "device_authorization", "device_poll", "userinfo", "introspection", "revocation", "end_session", "keys", "ready"} {
 		run.Mandatory("fired:provider:"+cl, "fired:legacy:"+cl)
 	}
-	// every method of op.Storage and of the optional capability interfaces except Health (/ready) and SignatureAlgorithms (discovery)
-	for _, m := range []string{"CreateAuthRequest", "AuthRequestByID", "AuthRequestByCode", "SaveAuthCode", "DeleteAuthRequest", "CreateAccessToken",
+	for _, l := range probeLayouts() {
+		run.Mandatory("ready-layout:provider:"+l.Name, "ready-layout:legacy:"+l.Name)
+	}
+	// every method of op.Storage and of the optional capability interfaces except SignatureAlgorithms (discovery)
+	for _, m := range []string{"Health", "CreateAuthRequest", "AuthRequestByID", "AuthRequestByCode", "SaveAuthCode", "DeleteAuthRequest", "CreateAccessToken",
 		"CreateAccessAndRefreshTokens", "TokenRequestByRefreshToken", "TerminateSession", "RevokeToken", "GetRefreshTokenInfo", "SigningKey", "KeySet",
 		"GetClientByClientID", "AuthorizeClientIDSecret", "SetUserinfoFromScopes", "SetUserinfoFromToken", "SetIntrospectionFromToken",
 		"GetPrivateClaimsFromScopes", "GetKeyByIDAndClientID", "ValidateJWTProfileScopes",
